@@ -24,6 +24,7 @@ type Case struct {
 	Cfg      []int            `json:"cfg,omitempty"`
 	Scale    int              `json:"scale,omitempty"`
 	Variant  int              `json:"variant,omitempty"` // non-period parameters scaled by variantFactor[Variant]
+	Procs    int              `json:"gomaxprocs,omitempty"` // GOMAXPROCS of the process that found it (replay sets it again)
 	Pause    int              `json:"pause,omitempty"`   // seconds of simulated time the harness's consumers let pass before their 2nd, 5th and 11th receive and its producers before their 3rd and 7th send
 	Lens     []int            `json:"lens,omitempty"`
 	Shape    int              `json:"shape,omitempty"`
@@ -324,6 +325,7 @@ func workerMain() int {
 		c := ck.Gen(rng, tier, k+worker*1000003+round*7)
 		c.Prop = prop
 		c.Seed = seed
+		c.Procs = runtime.GOMAXPROCS(0)
 		if pausable[prop] && rng.Intn(12) == 0 {
 			c.Pause = []int{7, 61, 3600}[rng.Intn(3)] // a slow consumer: nothing in the library may depend on how soon a value is taken
 		}
@@ -522,6 +524,9 @@ func replayMain() int {
 	}
 	if len(rf.History) > 0 {
 		return historyReplayMain(&rf, path)
+	}
+	if rf.Case.Procs > 0 {
+		runtime.GOMAXPROCS(rf.Case.Procs)
 	}
 	st := newStats()
 	vs := runCase(ck, rf.Case, st)
